@@ -5,8 +5,7 @@ Require Import ZifyBool.
 
 (* what the demanded record says when an optional counter does not exist: the metric is 0 and
    (slab excepted) it is named in the warning -- for EVERY other content of the files *)
-Theorem vm_missing_fields k r : wf_kernel k = true -> has_total_free k = true -> no_junk (k_mem k) = true ->
-  float_exact k = true ->
+Theorem vm_missing_fields k r : wf_kernel k = true -> has_total_free k = true -> float_exact k = true ->
   virtual_memory (k_pagesize k) (k_meminfo (k_mem k)) (option_map k_zoneinfo (k_zone k)) = Val r ->
   (kbytes (k_mem k) "Buffers:" = None -> v_buffers r = 0 /\ In (bs "buffers") (v_missing r)) /\
   (kbytes (k_mem k) "Cached:" = None -> v_cached r = 0 /\ In (bs "cached") (v_missing r)) /\
@@ -17,7 +16,7 @@ Theorem vm_missing_fields k r : wf_kernel k = true -> has_total_free k = true ->
   (kbytes (k_mem k) "Slab:" = None -> v_slab r = 0) /\
   (kbytes (k_mem k) "SReclaimable:" = None -> forall c, kbytes (k_mem k) "Cached:" = Some c -> v_cached r = c).
 Proof.
-  intros Hwf Htf Hj Hfl Hr. rewrite (vm_exact k Hwf Htf Hj Hfl) in Hr. injection Hr as <-.
+  intros Hwf Htf Hfl Hr. rewrite (vm_exact k Hwf Htf Hfl) in Hr. injection Hr as <-.
   cbn [spec_vm v_buffers v_cached v_shared v_active v_inactive v_slab v_missing].
   unfold sp_missing, sp_buffers, sp_cached, sp_shared, sp_active, sp_inactive, sp_inactive_o, sp_slab, absent.
   assert (IN : forall (x : bytes) a b c d e f, In x a \/ In x b \/ In x c \/ In x d \/ In x e \/ In x f ->
@@ -38,15 +37,14 @@ Proof.
 Qed.
 
 (* conversely the warning names nothing else: a name in it is a metric reported as 0 *)
-Theorem vm_warning_sound k r : wf_kernel k = true -> has_total_free k = true -> no_junk (k_mem k) = true ->
-  float_exact k = true ->
+Theorem vm_warning_sound k r : wf_kernel k = true -> has_total_free k = true -> float_exact k = true ->
   virtual_memory (k_pagesize k) (k_meminfo (k_mem k)) (option_map k_zoneinfo (k_zone k)) = Val r ->
   forall n, In n (v_missing r) ->
     (n = bs "buffers" /\ v_buffers r = 0) \/ (n = bs "cached" /\ v_cached r = 0) \/
     (n = bs "shared" /\ v_shared r = 0) \/ (n = bs "active" /\ v_active r = 0) \/
     (n = bs "inactive" /\ v_inactive r = 0) \/ (n = bs "available" /\ v_available r = 0).
 Proof.
-  intros Hwf Htf Hj Hfl Hr n Hn. rewrite (vm_exact k Hwf Htf Hj Hfl) in Hr. injection Hr as <-.
+  intros Hwf Htf Hfl Hr n Hn. rewrite (vm_exact k Hwf Htf Hfl) in Hr. injection Hr as <-.
   cbn [spec_vm v_buffers v_cached v_shared v_active v_inactive v_available v_missing] in *.
   unfold sp_missing, absent in Hn. rewrite !in_app_iff in Hn.
   destruct Hn as [Hn|[Hn|[Hn|[Hn|[Hn|Hn]]]]].
@@ -95,13 +93,13 @@ Example sample_swap_ok :
 Proof. vm_compute. split; [split; congruence|reflexivity]. Qed.
 
 (* ================================================================ lines that are not "name number ..." *)
-(* the code as it is now raises on the first such line -- for every file that contains one *)
-Theorem vm_junk_raises k ms1 b ms2 (z : option bytes) :
+(* the parser before db3d5fc raised on the first such line -- for every file that contains one *)
+Theorem legacy_parser_junk_raises k ms1 b ms2 (z : option bytes) :
   wf_kernel k = true -> k_mem k = ms1 ++ MJunk b :: ms2 -> no_junk ms1 = true ->
-  (virtual_memory (k_pagesize k) (k_meminfo (k_mem k)) z = Exc IndexError \/
-   virtual_memory (k_pagesize k) (k_meminfo (k_mem k)) z = Exc ValueError) /\
-  (forall si v, swap_memory (k_pagesize k) (k_meminfo (k_mem k)) si v = Exc IndexError \/
-                swap_memory (k_pagesize k) (k_meminfo (k_mem k)) si v = Exc ValueError).
+  (virtual_memory_gen false (k_pagesize k) (k_meminfo (k_mem k)) z = Exc IndexError \/
+   virtual_memory_gen false (k_pagesize k) (k_meminfo (k_mem k)) z = Exc ValueError) /\
+  (forall si v, swap_memory_gen false (k_pagesize k) (k_meminfo (k_mem k)) si v = Exc IndexError \/
+                swap_memory_gen false (k_pagesize k) (k_meminfo (k_mem k)) si v = Exc ValueError).
 Proof.
   intros Hwf Hk Hj. apply wf_kernel_inv in Hwf as [Hm _]. unfold wf_meminfo in Hm.
   apply andb_true_iff in Hm as [Hw _]. rewrite Hk in *.
@@ -112,14 +110,14 @@ Proof.
   cbn [forallb] in Hw2. apply andb_true_iff in Hw2 as [Hb _].
   pose proof (mem_fold_strict_junk ms1 b ms2 [] Hw1 Hj Hb) as F.
   split.
-  - unfold virtual_memory, virtual_memory_gen, parse_meminfo. rewrite L.
+  - unfold virtual_memory_gen, parse_meminfo. rewrite L.
     destruct F as [-> | ->]; [now left|now right].
-  - intros si v. unfold swap_memory, swap_memory_gen, parse_meminfo. rewrite L.
+  - intros si v. unfold swap_memory_gen, parse_meminfo. rewrite L.
     destruct F as [-> | ->]; [now left|now right].
 Qed.
 
-(* the witness: /proc/meminfo of a Linux 2.4 kernel (three legacy lines first).  The code as it
-   is now raises ValueError at "total: used: ..."; the lenient parser returns the demanded record,
+(* the witness: /proc/meminfo of a Linux 2.4 kernel (three legacy lines first).  The parser before
+   db3d5fc raised ValueError at "total: used: ..."; the code as it is now returns the demanded record,
    reaching the MemShared / Inact_* branches that exist for exactly these kernels *)
 Definition legacy_kernel : kernel :=
   {| k_mem := legacy_header (bs "1050001408") (bs "1031790592") (bs "18210816") (bs "2097434624") ++
@@ -128,11 +126,11 @@ Definition legacy_kernel : kernel :=
                 ml "Active:" 8 "400000"; ml "Inact_dirty:" 2 "100000"; ml "Inact_clean:" 2 "50000";
                 ml "Inact_laundry:" 1 "2000"; ml "SwapTotal:" 3 "2048276"; ml "SwapFree:" 4 "2047700" ];
      k_zone := None; k_vm := None; k_pagesize := 4096; k_sysinfo := (0, 0, 1) |}.
-Theorem vm_legacy_header_refuted :
+Theorem vm_legacy_parser_refuted :
   exists k, wf_kernel k = true /\ has_total_free k = true /\ float_exact k = true /\
-    virtual_memory (k_pagesize k) (k_meminfo (k_mem k)) (option_map k_zoneinfo (k_zone k)) = Exc ValueError /\
-    swap_memory (k_pagesize k) (k_meminfo (k_mem k)) (k_sysinfo k) (option_map k_vmstat (k_vm k)) = Exc ValueError /\
-    virtual_memory_gen true (k_pagesize k) (k_meminfo (k_mem k)) (option_map k_zoneinfo (k_zone k)) = Val (spec_vm k) /\
+    virtual_memory_gen false (k_pagesize k) (k_meminfo (k_mem k)) (option_map k_zoneinfo (k_zone k)) = Exc ValueError /\
+    swap_memory_gen false (k_pagesize k) (k_meminfo (k_mem k)) (k_sysinfo k) (option_map k_vmstat (k_vm k)) = Exc ValueError /\
+    virtual_memory (k_pagesize k) (k_meminfo (k_mem k)) (option_map k_zoneinfo (k_zone k)) = Val (spec_vm k) /\
     v_shared (spec_vm k) = 0 /\ v_inactive (spec_vm k) = 152000 * 1024 /\ v_missing (spec_vm k) = [].
 Proof.
   exists legacy_kernel. repeat split; vm_compute; reflexivity.
@@ -144,7 +142,7 @@ Definition float_kernel : kernel :=
                 ml "Active(file):" 1 "2"; ml "Inactive(file):" 1 "0"; ml "SReclaimable:" 1 "0" ];
      k_zone := Some [ zlow "1" ]; k_vm := None; k_pagesize := 4096; k_sysinfo := (0, 0, 1) |}.
 Theorem vm_float_bound_needed :
-  exists k r, wf_kernel k = true /\ has_total_free k = true /\ no_junk (k_mem k) = true /\ float_exact k = false /\
+  exists k r, wf_kernel k = true /\ has_total_free k = true /\ float_exact k = false /\
     virtual_memory (k_pagesize k) (k_meminfo (k_mem k)) (option_map k_zoneinfo (k_zone k)) = Val r /\
     v_available r = 2 ^ 63 /\ sp_available k = 2 ^ 63 + 2048.
 Proof. exists float_kernel. eexists. repeat split; vm_compute; reflexivity. Qed.
@@ -154,7 +152,6 @@ Section Phymem.
   Variable k : kernel.
   Hypothesis Hwf : wf_kernel k = true.
   Hypothesis Htf : has_total_free k = true.
-  Hypothesis Hj : no_junk (k_mem k) = true.
   Hypothesis Hfl : float_exact k = true.
   Let mi := k_meminfo (k_mem k).
   Let zi := option_map k_zoneinfo (k_zone k).
@@ -162,7 +159,7 @@ Section Phymem.
   (* psutil.virtual_memory() stores the total it reports *)
   Theorem front_vm_sets c :
     front_vm c (k_pagesize k) mi zi = (Some (sp_total k), Val (spec_vm k)).
-  Proof. unfold front_vm, mi, zi. rewrite (vm_exact k Hwf Htf Hj Hfl). reflexivity. Qed.
+  Proof. unfold front_vm, mi, zi. rewrite (vm_exact k Hwf Htf Hfl). reflexivity. Qed.
 
   (* Process.memory_percent(): value*100/total against the cached total; re-reads only when
      nothing (or 0) is cached; ValueError for a total that is not positive *)
@@ -207,7 +204,7 @@ Proof. intros. lia. Qed.
 Inductive pcall := CVm (k : kernel) | CMp (value : Z) (k : kernel).
 Definition pcall_kernel (e : pcall) : kernel := match e with CVm k => k | CMp _ k => k end.
 Definition pcall_ok (e : pcall) : bool :=
-  let k := pcall_kernel e in wf_kernel k && has_total_free k && no_junk (k_mem k) && float_exact k.
+  let k := pcall_kernel e in wf_kernel k && has_total_free k && float_exact k.
 Fixpoint m_cache (c : option Z) (h : list pcall) : option Z :=
   match h with
   | [] => c
@@ -224,9 +221,8 @@ Theorem phymem_history h : forall c, forallb pcall_ok h = true -> m_cache c h = 
 Proof.
   induction h as [|e h IH]; intros c H; [reflexivity|].
   cbn [forallb] in H. apply andb_true_iff in H as [He Hr].
-  unfold pcall_ok in He. apply andb_true_iff in He as [He H4]. apply andb_true_iff in He as [He H3].
-  apply andb_true_iff in He as [H1 H2].
+  unfold pcall_ok in He. apply andb_true_iff in He as [He H4]. apply andb_true_iff in He as [H1 H2].
   destruct e as [k|v k]; cbn [pcall_kernel] in *; cbn [m_cache s_cache].
-  - rewrite (front_vm_sets k H1 H2 H3 H4). cbn [fst]. now apply IH.
-  - rewrite (memory_percent_spec k H1 H2 H3 H4). now apply IH.
+  - rewrite (front_vm_sets k H1 H2 H4). cbn [fst]. now apply IH.
+  - rewrite (memory_percent_spec k H1 H2 H4). now apply IH.
 Qed.
